@@ -7,7 +7,11 @@ import "strings"
 var allSpecs = []HarnessSpec{
 	{Prop: "C08", Pkg: "taskfile/ast", Func: "ZZ_C08_DeepCopy", Replay: "native"},
 	{Prop: "C08", Pkg: "taskfile/ast", Func: "ZZ_C08_Merge", Replay: "native"},
-	{Prop: "C16", Pkg: "taskfile/ast", Func: "ZZ_C16_Var", Replay: "native"},
+	{Prop: "C15", Pkg: "", Func: "ZZ_C15_Resolve", Replay: "native", Twin: true, Params: map[string]int{"tasks": 2, "namelen": 3, "reqlen": 4}, TParams: map[string]int{"tasks": 3, "namelen": 3, "reqlen": 4}},
+	{Prop: "C15", Pkg: "", Func: "ZZ_C15_Fuzzy", Replay: "native", Twin: true},
+	{Prop: "C16", Pkg: "taskfile/ast", Func: "ZZ_C16_Unmarshal", Replay: "native", Twin: true, Params: map[string]int{"depth": 0, "maxitems": 1}, TParams: map[string]int{"depth": 0, "maxitems": 2, "__maxpaths": 3000000}},
+	{Prop: "C16", Pkg: "taskfile", Func: "ZZ_C16_GitNode", Replay: "native", Twin: true},
+	{Prop: "C16", Pkg: "taskfile", Func: "ZZ_C16_Snippet", Replay: "native", Twin: true},
 	{Prop: "C19", Pkg: "args", Func: "ZZ_C19_Get", Replay: "native", Twin: true},
 	{Prop: "C19", Pkg: "args", Func: "ZZ_C19_Parse", Replay: "native", Twin: true},
 	{Prop: "C19", Pkg: "cmd/task", Func: "ZZ_C19_Init", Replay: "native", ReplayPkg: "args", ReplayFunc: "ZZ_C19_Init_native", Twin: true},
